@@ -218,6 +218,8 @@ Section TestFns.
   (** residuals of NESTED solves (re-entrancy stream of the check): at parent point p a level's
       residual is  (f x - t*p)  and, when the level has an inner solve whose root at x is y,
       (f x - t*p) + s*y *)
+  (** quotient of two test functions (derivatives / residuals that are 0, +-Inf or NaN at chosen points) *)
+  Definition tf_div (fx gx : T) : T := fx / gx.
   Definition tf_nest_inner (fx t p : T) : T := fx - t * p.
   Definition tf_nest_outer (fx t p s y : T) : T := (fx - t * p) + s * y.
 
@@ -240,4 +242,5 @@ Section Driver.
   Definition c18_tf_shpow : T -> T -> nat -> T -> T := tf_shpow.
   Definition c18_tf_nest_inner : T -> T -> T -> T := tf_nest_inner.
   Definition c18_tf_nest_outer : T -> T -> T -> T -> T -> T := tf_nest_outer.
+  Definition c18_tf_div : T -> T -> T := tf_div.
 End Driver.
